@@ -49,7 +49,7 @@ AutolinkEnd(r, i) ==
 
 (* raw HTML: an open tag <name attr* /?> or a closing tag </name> *)
 RECURSIVE SpaceRun(_, _)
-SpaceRun(r, i) == IF At(r, i) = " " THEN 1 + SpaceRun(r, i + 1) ELSE 0
+SpaceRun(r, i) == IF At(r, i) \in {" ", "\n"} THEN 1 + SpaceRun(r, i + 1) ELSE 0          \* (whitespace inside a tag may hold a line end)
 (* attribute name: a letter, "_" or ":", then letters, "_", ":", ".", "-" (digits do not occur in the raw alphabets) *)
 RECURSIVE AttrRest(_, _)
 AttrRest(r, i) == IF At(r, i) \in (Letters \cup {"_", ":", ".", "-"}) THEN 1 + AttrRest(r, i + 1) ELSE 0
@@ -59,7 +59,7 @@ AttrName(r, i) == IF At(r, i) \in (Letters \cup {"_", ":"}) THEN 1 + AttrRest(r,
    First position behind the value, or j if there is no value specification. *)
 NextOf(r, from, c) == LET S == {q \in from..Len(r) : r[q] = c} IN IF S = {} THEN 0 ELSE CHOOSE q \in S : \A q2 \in S : q <= q2
 RECURSIVE UnquotedRun(_, _)
-UnquotedRun(r, i) == IF At(r, i) # "" /\ At(r, i) \notin {" ", "\"", "'", "=", "<", ">", "`"} THEN 1 + UnquotedRun(r, i + 1) ELSE 0
+UnquotedRun(r, i) == IF At(r, i) # "" /\ At(r, i) \notin {" ", "\n", "\"", "'", "=", "<", ">", "`"} THEN 1 + UnquotedRun(r, i + 1) ELSE 0
 AfterValue(r, j) ==
     LET k == j + SpaceRun(r, j)
         v == k + 1 + SpaceRun(r, k + 1) IN
